@@ -461,6 +461,28 @@ fn gen_redeclare(g: &mut Gen) -> Vec<CmdCase> {
     cmds
 }
 
+/// One or two symbols whose names consist of lexical delimiters (`"`, `;`, parentheses, `#`, line breaks inside |..|, text that looks
+/// like a string literal) are declared / defined and then used by later commands: where a command ends must not depend on the name.
+fn gen_declare_use(g: &mut Gen) -> Vec<CmdCase> {
+    let mut cmds = vec![];
+    let mut syms = vec![];
+    for _ in 0..(1 + g.rng.below(2)) {
+        let w = g.width();
+        let v = g.bv(w, 1);
+        let s = g.delim_symbol(Type::BV(w));
+        cmds.push(if g.rng.chance(1, 3) { CmdCase::Define(s, v) } else { CmdCase::Declare(s) });
+        syms.push((s, w));
+    }
+    for (s, w) in syms {
+        let u = use_of(g, s, w);
+        cmds.push(if g.rng.chance(1, 4) { CmdCase::GetValue(u) } else { CmdCase::Assert(u) });
+    }
+    if g.rng.chance(1, 2) {
+        cmds.push(CmdCase::CheckSat);
+    }
+    cmds
+}
+
 fn use_of(g: &mut Gen, s: ExprRef, w: WidthInt) -> ExprRef {
     match g.rng.below(4) {
         0 => {
@@ -834,6 +856,9 @@ fn run_inner(args: &Args) {
                     if g.rng.chance(1, 4) {
                         cmds = gen_redeclare(&mut g);
                         stats.bump("script_shape", "redeclare");
+                    } else if g.rng.chance(1, 3) {
+                        cmds = gen_declare_use(&mut g);
+                        stats.bump("script_shape", "declare-use");
                     } else {
                         for _ in 0..k {
                             cmds.push(gen_cmd(&mut g, &mut stats));
